@@ -1,6 +1,6 @@
 """C03 — names unique per parent; name / id / index lookups, counts and order agree."""
 from vlib.tok import s as S
-from checks.storegen import World, NAMES, PLAIN, BLOCK_KINDS
+from checks.storegen import World, NAMES, PLAIN, BLOCK_KINDS, with_hdump
 ID = 'C03'
 THEOREMS = ['Nix.St.find_by_name', 'Nix.St.find_by_id', 'Nix.St.find_by_id_shadowed', 'Nix.St.count_eq_enumeration_length', 'Nix.St.enumeration_eq_by_index', 'Nix.St.nthChild_isSome_iff', 'Nix.St.blkFind_by_name', 'Nix.St.blkFind_by_name_and_id', 'Nix.St.blkFind_by_id', 'Nix.St.createBlock_appends', 'Nix.St.delete_keeps_order', 'Nix.St.unlinkAll_preserves_container', 'Nix.St.createBlock_preserves_container', 'Nix.St.blocks_container_invariant', 'Nix.St.newFile_blocks_container', 'Nix.St.newFile_wt', 'Nix.St.apply_wt', 'Nix.St.run_wt', 'Nix.St.reachable_wt', 'Nix.St.names_unique_per_parent', 'Nix.St.lookup_by_name_finds_the_link', 'Nix.St.children_are_groups', 'Nix.St.properties_are_datasets', 'Nix.St.link_targets_exist', 'Nix.St.links_conform_to_schema', 'Nix.St.WT.block_containers_hold_groups']
 LEAN_MODULES = ['NixModel.Props.C03', 'NixModel.Props.C03Inv', 'NixModel.Props.C03Schema', 'NixModel.Proofs.Roles', 'NixModel.Proofs.RolesLookup', 'NixModel.Proofs.RolesOps', 'NixModel.Proofs.RolesHistory']
